@@ -217,7 +217,10 @@ func VerifC02Box(boxType string, n int, large bool) {
 	vfy.Cover("decoded")
 	vfy.Cover("decoded:" + boxType)
 	// known finding: FullBox versions >= 2 (see C01-unknown-version): Size() and the encoders disagree
-	vfy.Known("C02-unknown-version", c01FullBox[boxType] && n > 0 && in[hdrLen(large)] >= 2)
+	vfy.Known("C02-unknown-version", vfy.Or(c01FullBox[boxType] && n > 0 && in[hdrLen(large)] >= 2, boxType == "uuid" && n > 16 && in[hdrLen(large)+16] >= 2))
+	// known finding: senc with sample_count 0 followed by further bytes (see C01-senc-zero-samples-trailing)
+	hl2 := hdrLen(large)
+	vfy.Known("C02-senc-zero-samples-trailing", boxType == "senc" && n > 8 && vfy.And(vfy.And(in[hl2+4] == 0, in[hl2+5] == 0), vfy.And(in[hl2+6] == 0, in[hl2+7] == 0)))
 	s0 := b.Size()
 	sw := bits.NewFixedSliceWriter(int(s0) + 8)
 	err = b.EncodeSW(sw)
